@@ -10,6 +10,8 @@ pub struct Gen<'s> {
     /// interpreter-sized cases (Miri)
     pub small: bool,
     pub thorough: bool,
+    /// generate cases with the thread-creation fault (plain builds only)
+    pub spawn_faults: bool,
 }
 
 const ORDERED: [Term; 6] = [
@@ -268,6 +270,7 @@ impl<'s> Gen<'s> {
             probe_spin: if r.chance(1, 3) { r.below(300) as u32 } else { 0 },
             probe_sleep_us: if slow_source { r.range(20, 300) as u32 } else { 0 },
             pre_consumed: 0,
+            spawn_fail: false,
         }
     }
 
@@ -754,6 +757,16 @@ impl<'s> Gen<'s> {
         if c.term == Term::Sum && self.find(c.src, &c.shape).map(|s| s.ref_elem).unwrap_or(false) {
             c.term = Term::Reduce;
         }
+        if self.spawn_faults
+            && matches!(prop, "C01" | "C03" | "C04" | "C06" | "C07")
+            && c.mode != Mode::Q
+            && c.faults.is_empty()
+            && c.len <= 200
+            && r.chance(1, 40)
+        {
+            c.spawn_fail = true;
+            c.noise = 0;
+        }
         if c.src == Src::Array {
             // the array source has a fixed length, whatever the profile did to `len`
             c.len = 8;
@@ -887,6 +900,7 @@ impl<'s> Gen<'s> {
             probe_spin: 0,
             probe_sleep_us: 0,
             pre_consumed: 0,
+            spawn_fail: false,
         }
     }
 
@@ -1064,6 +1078,7 @@ impl<'s> Gen<'s> {
             probe_spin: 0,
             probe_sleep_us: 0,
             pre_consumed: 0,
+            spawn_fail: false,
         })
     }
 
@@ -1108,6 +1123,7 @@ impl<'s> Gen<'s> {
             probe_spin: 0,
             probe_sleep_us: 0,
             pre_consumed: 0,
+            spawn_fail: false,
         };
         // filters that keep most elements, so that downstream stages have something to (not) do
         for st in c.stages.iter_mut() {
